@@ -73,6 +73,8 @@ func main() {
 		raceWorker(os.Args[2:])
 	case "lexprobe":
 		os.Exit(lexProbeMain())
+	case "fnprobe":
+		os.Exit(fnProbeMain())
 	}
 }
 
